@@ -279,14 +279,14 @@ pub fn c12_read(ctx: &Ctx) -> Outcome {
 }
 
 pub fn copy_ops(w: usize, thorough: bool) -> Vec<ROp> {
-    let mut ns: Vec<usize> = if thorough { (0..=3 * w + 2).collect() } else { vec![0, 1, 2, w / 2, w - 1, w, w + 1] };
+    let mut ns: Vec<usize> = if thorough { (0..=2 * w + 2).collect() } else { vec![0, 1, 2, w / 2, w - 1, w, w + 1] };
     ns.extend([2 * w - 1, 2 * w, 2 * w + 1, 3 * w + 2, 5 * w + 7, 8 * w, 200]);
     ns.sort();
     ns.dedup();
     let mut a = vec![];
     for &n in &ns {
         for wd in [8u8, 16, 32, 64, 128] {
-            let mut pfs: Vec<usize> = if thorough { (0..wd as usize).step_by(if wd > 32 { 5 } else { 1 }).collect() } else { vec![0] };
+            let mut pfs: Vec<usize> = if thorough { vec![0, 1, 2, wd as usize / 2, wd as usize - 2] } else { vec![0] };
             pfs.push(wd as usize - 1);
             pfs.sort();
             pfs.dedup();
@@ -330,7 +330,7 @@ pub fn c08_source(ctx: &Ctx) -> Outcome {
                     }
                     let imgs = images(e, nbits, seed, thorough);
                     // seeded, valid codewords (table look-ahead before and after copies), all-ones in thorough
-                    let sel: Vec<usize> = if thorough { vec![0, 1, 4] } else { vec![1] };
+                    let sel: Vec<usize> = if thorough { vec![1, 0] } else { vec![1] };
                     for ii in sel {
                         let img = &imgs[ii];
                         let model = RdModel { bits: Bits::from_bytes(&img.bytes, e), e, zx: backend == "memzx", limit: nbits + 64, tables_ok: diag };
